@@ -62,6 +62,8 @@ pub fn ref_member(t: &DataType, v: &Value) -> bool {
             None => true,
             Some(x) => ref_member(o.data_type(), x),
         },
+        // the library identifies the unit value with NULL (`unit ⊆ option(T)`)
+        (DataType::Optional(_), Value::Unit(_)) => true,
         (DataType::Optional(o), x) => ref_member(o.data_type(), x),
         (t, Value::Optional(x)) => match x.as_ref() {
             None => matches!(t, DataType::Unit(_)),
@@ -103,15 +105,16 @@ pub fn ref_member(t: &DataType, v: &Value) -> bool {
         (DataType::Duration(s), Value::Duration(x)) => in_pairs(s, &**x),
         (DataType::Id(_), Value::Id(_)) => true,
         (DataType::Function(_), Value::Function(_)) => true,
+        // record (width) sub-typing, as the library defines its struct types: every field of the
+        // type is present in the value with a member value; further fields are allowed
         (DataType::Struct(s), Value::Struct(x)) => {
             let tf = s.fields();
             let vf = x.fields();
-            tf.len() == vf.len()
-                && tf.iter().all(|(name, ft)| {
-                    vf.iter()
-                        .find(|(n, _)| n == name)
-                        .map_or(false, |(_, fv)| ref_member(ft, fv))
-                })
+            tf.iter().all(|(name, ft)| {
+                vf.iter()
+                    .find(|(n, _)| n == name)
+                    .map_or(false, |(_, fv)| ref_member(ft, fv))
+            })
         }
         (DataType::Union(u), Value::Union(x)) => {
             let (name, val) = &**x;
@@ -145,4 +148,55 @@ pub fn is_nan(v: &Value) -> bool {
 
 pub fn is_none(v: &Value) -> bool {
     matches!(v, Value::Optional(o) if o.is_none())
+}
+
+/// Strict membership: the value has the variant of the type (no numeric / text / optional
+/// embeddings at the top level or below). Used as the *premise* of the lattice laws.
+pub fn strict_member(t: &DataType, v: &Value) -> bool {
+    match (t, v) {
+        (DataType::Any, _) => true,
+        (DataType::Null, _) => false,
+        (DataType::Optional(o), Value::Optional(x)) => match x.as_ref() {
+            None => true,
+            // nested options are flattened by the library (option(option(T)) = option(T))
+            Some(x) => strict_member(o.data_type(), x) || (matches!(x.as_ref(), Value::Optional(_)) && strict_member(t, x)),
+        },
+        (DataType::Unit(_), Value::Unit(_)) => true,
+        (DataType::Boolean(s), Value::Boolean(b)) => in_pairs(s, &**b),
+        (DataType::Integer(s), Value::Integer(i)) => in_pairs(s, &**i),
+        (DataType::Float(s), Value::Float(f)) => in_pairs(s, &**f),
+        (DataType::Enum(e), Value::Enum(x)) => {
+            let (i, names) = &**x;
+            // same code and same name for that code
+            e.values().iter().any(|(n, j)| j == i && names.iter().any(|(m, k)| k == i && m == n))
+        }
+        (DataType::Text(s), Value::Text(x)) => in_pairs(s, &**x),
+        (DataType::Bytes(_), Value::Bytes(_)) => true,
+        (DataType::Date(s), Value::Date(x)) => in_pairs(s, &**x),
+        (DataType::Time(s), Value::Time(x)) => in_pairs(s, &**x),
+        (DataType::DateTime(s), Value::DateTime(x)) => in_pairs(s, &**x),
+        (DataType::Duration(s), Value::Duration(x)) => in_pairs(s, &**x),
+        (DataType::Id(_), Value::Id(_)) => true,
+        (DataType::Struct(s), Value::Struct(x)) => {
+            let vf = x.fields();
+            s.fields().iter().all(|(name, ft)| {
+                vf.iter().find(|(n, _)| n == name).map_or(false, |(_, fv)| strict_member(ft, fv))
+            })
+        }
+        (DataType::Union(u), Value::Union(x)) => {
+            let (name, val) = &**x;
+            u.fields().iter().any(|(n, ft)| n == name && strict_member(ft, val))
+        }
+        (DataType::List(l), Value::List(x)) => {
+            in_pairs(l.size(), &(x.len() as i64)) && x.iter().all(|e| strict_member(l.data_type(), e))
+        }
+        (DataType::Set(l), Value::Set(x)) => {
+            in_pairs(l.size(), &(x.len() as i64)) && x.iter().all(|e| strict_member(l.data_type(), e))
+        }
+        (DataType::Array(a), Value::Array(x)) => {
+            let (vals, shape) = &**x;
+            a.shape() == shape.as_slice() && vals.iter().all(|e| strict_member(a.data_type(), e))
+        }
+        _ => false,
+    }
 }
